@@ -222,6 +222,15 @@ impl Prop for C20 {
               return Err(format!("tree #{i}: hash {a} here, {b} on another thread, {c} after observers {:?}", history));
             }
           }
+          // "does not depend on addresses": each tree doubled in an add-typed ConcatSource, once from separately allocated
+          // children and once as c.add(c.clone()), i.e. with the same reference-counted children at two positions
+          for (i, s) in specs.iter().enumerate() {
+            let d = Spec::Concat { how: 1, children: vec![s.clone(), s.clone()] };
+            let (a, b) = (hash_of(&*build(&d)), hash_of(&*crate::build::build_shared(&d)));
+            if a != b {
+              return Err(format!("tree #{i} doubled hashes to {a} with separately allocated children and to {b} when both halves share their children: {}", serde_json::to_string(s).unwrap()));
+            }
+          }
           Ok(CaseInfo::nt(true).class(true, "reproducibility batch"))
         }
         Case::Edit { x, edit } => {
